@@ -55,8 +55,8 @@ def BufW.flush (s : BufW) : BufW :=
   if s.err then s
   else if s.buf.isEmpty then s
   else
-    let (s1, a) := ({ s with buf := [] } : BufW).under s.buf
-    { s1 with buf := s.buf.drop a }
+    let r := ({ s with buf := [] } : BufW).under s.buf
+    { r.1 with buf := s.buf.drop r.2 }
 
 /-- `bufio.(*Writer).Write(p)` for a buffer of `B` bytes; returns the new state and the number of
 bytes accepted (`nn`). The loop of the Go code runs at most twice: fill + flush, then either the
@@ -73,8 +73,8 @@ def BufW.write (B : Nat) (s : BufW) (p : Bytes) : BufW × Nat :=
       let rest := p.drop k
       if rest.length ≤ B - s1.buf.length then ({ s1 with buf := s1.buf ++ rest }, p.length)
       else
-        let (s2, a) := s1.under rest
-        (s2, k + a)
+        let r := s1.under rest
+        (r.1, k + r.2)
 
 /-! ### the write program -/
 
@@ -179,6 +179,9 @@ def program (m : Bytes) (line : Bytes) (fields : Hdr) (f : Framing) (md : Mode) 
     List Op :=
   headOps md.htag line fields ++ (if md.flushHeaders then [.flush] else []) ++ bodyOps m f md pieces
 
+/-- the connection's buffered writer before the request: empty, wire accepting `limit` bytes. -/
+def St.init (limit : Option Nat) : St := { w := { limit := limit } }
+
 /-- `writeRequest` on request `r` whose body reader returned `pieces`, buffer size `B`, wire
 accepting `limit` bytes; `none` = refused before the first write (same errors as
 `serializeH1`). The final `Flush` of `writeLoop` is NOT included (`St.w.buf` is what it would
@@ -189,7 +192,7 @@ def writeRequest (B : Nat) (limit : Option Nat) (r : WReq) (md : Mode) (pieces :
   let target := requestTarget r host
   if containsCTL target then throw .ctlInURI
   let f ← framing r
-  return run B { w := { limit := limit } }
+  return run B (St.init limit)
     (program r.method (requestLine r target) (h1Fields r host f) f md pieces)
 
 /-- `shouldSendChunkedRequestBody` probes the body (reads one byte ahead) when the length is
